@@ -101,7 +101,10 @@ def main(v: Verdict) -> None:
     # packages that receive re-exported declarations: one whose path changes under conversion, handled before one whose path does not
     files["core/__init__.py"] = ""
     files["core/_shared.py"] = "def re_fn() -> int:\n    ...\n\n\nclass ReCls:\n    pass\n\n\nclass ReOther:\n    pass\n"
-    files["data_sets/__init__.py"] = f"from {PKG}.core._shared import re_fn\n"
+    files["data_sets/__init__.py"] = f"from {PKG}.core._shared import re_fn\nfrom .sub_part import tool_mod\n"
+    # a module that its grand-parent package re-exports as a whole (the package path changes under conversion)
+    files["data_sets/sub_part/__init__.py"] = ""
+    files["data_sets/sub_part/tool_mod.py"] = "def tool_fn(first_arg: int) -> int:\n    ...\n\n\nclass ToolCls:\n    pass\n"
     files["data_sets/fill.py"] = "def fill_a() -> int:\n    ...\n"
     files["plots/__init__.py"] = f"from {PKG}.core._shared import ReCls\n"
     files["plots/fill.py"] = "def fill_b() -> int:\n    ...\n"
